@@ -374,6 +374,7 @@ oscore_validate_sender_seq(oscore_recipient_ctx_t *ctx, cose_encrypt0_t *cose) {
 
   ctx->rollback_last_seq = ctx->last_seq;
   ctx->rollback_sliding_window = ctx->sliding_window;
+  ctx->rollback_initial_state = ctx->initial_state;
 
   /* Special case since we do not use unsigned int for seq */
   if (ctx->initial_state == 1) {
@@ -450,4 +451,5 @@ void
 oscore_roll_back_seq(oscore_recipient_ctx_t *ctx) {
   ctx->sliding_window = ctx->rollback_sliding_window;
   ctx->last_seq = ctx->rollback_last_seq;
+  ctx->initial_state = ctx->rollback_initial_state;
 }
